@@ -118,6 +118,7 @@ impl Structured {
     }
 }
 
+#[derive(Clone)]
 pub struct StructFamily {
     pub format: Format,
     pub max_lines: usize,
